@@ -1,6 +1,8 @@
 """C30 -- QUIC streams are demultiplexed onto correctly paired streams.
 
-Engine A (dedicated loop): a real RawQuicLayer(force_raw=True) is driven directly through handle_event with random
+Engine A (dedicated loop): a real RawQuicLayer -- force_raw=True in half of the cases, otherwise force_raw=False with a
+next_layer policy that picks TCPLayer/UDPLayer at the n-th ask per stream (n in 1..3 = late decision, or never: the hook
+returns without a layer) -- is driven directly through handle_event with random
 interleavings of QuicStreamDataReceived (with/without end_stream, empty FIN), QuicStreamReset, QuicConnectionClosed and
 datagrams from both sides over 1-10 streams of all four RFC 9000 classes (bidi/uni x client/server-initiated, ids with
 gaps and out of order); the tcp_*/udp_* hooks of the per-stream layers complete in a random order, possibly much later
@@ -17,6 +19,8 @@ Monitor (M2 at the command boundary, oracle vf/ref/c30_quicdemux.py, independent
                streams that peer opened
   route.term   FIN (end_stream), ResetQuicStream (same error code) and StopSendingQuicStream are only emitted for a stream
                whose pair received a terminating signal (or after a connection close), never for an unrelated stream
+               (a RESET is never accepted on the stream it came from; FIN+STOP_SENDING back to the terminating side is accepted
+               only as the abort of a stream whose next layer was still undecided)
   dgram        datagrams are relayed as datagrams to the other side, stream data never as datagrams
 """
 from mitmproxy.connection import ConnectionState
@@ -25,6 +29,8 @@ from mitmproxy.proxy.context import Context
 from mitmproxy.proxy.layers.quic import _commands as qc
 from mitmproxy.proxy.layers.quic import _events as qe
 from mitmproxy.proxy.layers.quic._raw_layers import RawQuicLayer
+from mitmproxy.proxy.layers.tcp import TCPLayer
+from mitmproxy.proxy.layers.udp import UDPLayer
 
 from vf import sansio
 from vf.core import exc_site
@@ -35,11 +41,12 @@ LEVEL = "exploration"
 ENGINE = "sansio"
 BUDGET = {"quick": (1500, 16), "thorough": (50000, 200)}
 WORKERS = {"quick": 4, "thorough": 16}
-REQUIRED = ["route.data", "route.class", "route.term", "pairs", "allocations", "fin_out", "reset_out", "stop_out", "events_behind_pending_hook"]
+REQUIRED = ["route.data", "route.class", "route.term", "pairs", "allocations", "fin_out", "reset_out", "stop_out", "events_behind_pending_hook", "nextlayer_cases", "next_layer_left_undecided", "next_layer_decided_late", "reset_on_undecided_stream"]
 TECHNIQUE = "runtime monitoring: random interleaving of QUIC stream events on the real RawQuicLayer + tag-based routing oracle on the command log"
 RULE = (
     "case = 1-10 streams (class bidi/uni x client/server-initiated, index 0-6 so ids have gaps and arrive out of order), per stream and direction "
-    "0-3 tagged chunks then FIN-with-data / empty FIN / RESET / left open, reactive responder scripts for bidi streams, 0-3 datagrams, optional "
+    "0-3 tagged chunks (optionally preceded by an empty STREAM frame) then FIN-with-data / empty FIN / RESET (also as the first event) / left open, "
+    "force_raw or next_layer policy deciding at the 1st-3rd ask or never, reactive responder scripts for bidi streams, 0-3 datagrams, optional "
     "QuicConnectionClosed from either/both sides at a random point, hooks completing late with random probability, random interleaving; signature = "
     "(multiset of stream classes, termination kinds used, #pairs class, conn-close pattern, hook-delay class, events-queued-behind-hook flag); "
     "non-trivial iff >=2 streams relayed data (>=2 pairs established) or >=1 pair plus a reset/connection close"
@@ -47,6 +54,7 @@ RULE = (
 ASSUMPTIONS = [
     "peers are protocol-conformant: per stream and direction data* then at most one FIN or RESET, nothing on a uni stream from its receiver, the far peer uses a stream id only after mitmproxy used it",
     "QuicStreamStopSending events are not part of the property's quantifier and are not generated",
+    "in next-layer mode a stream whose layer is still undecided when its own side ends it is shut down on that side by mitmproxy itself (FIN + STOP_SENDING): accepted as not being a relayed signal; a RESET towards the originating stream never is",
     "the property is about routing (which stream a signal reaches), not about completeness of delivery (C29 covers the per-stream relay)",
     "connection state is set to CLOSED when QuicConnectionClosed is delivered / CloseQuicConnection is issued, as ConnectionHandler does for a UDP transport",
 ]
@@ -61,14 +69,20 @@ OTHER = {"c": "s", "s": "c"}
 
 
 class QuicLoop:
-    def __init__(self, opts, rng):
+    def __init__(self, opts, rng, force_raw=True, never_decide=0.3):
         self.rng = rng
+        self.force_raw = force_raw
+        self.never_decide = never_decide
+        self.current = None  # what is being fed: ("stream", side, sid) | ("dgram",) | None
+        self.hook_owner = {}  # id(hook command) -> self.current at the time it was started
+        self.nl = {}  # id(NextLayer) -> dict(nl, asks, need, keys)
+        self.decided_keys = set()
         self.client = sansio.make_client("regular", transport="udp")
         self.ctx = Context(self.client, opts)
         self.server = self.ctx.server
         self.server.address = ("example.com", 443)
         self.server.transport_protocol = "udp"
-        self.layer = RawQuicLayer(self.ctx, force_raw=True)
+        self.layer = RawQuicLayer(self.ctx, force_raw=force_raw)
         self.trace = []
         self.pending = []  # blocking commands awaiting completion
         self.exceptions = []
@@ -132,6 +146,12 @@ class QuicLoop:
             self.pending.append(cmd)
             if isinstance(cmd, commands.StartHook):
                 self.hooks.append(cmd.name)
+                self.hook_owner[id(cmd)] = self.current
+                if cmd.name == "next_layer":
+                    nl = cmd.data
+                    rec = self.nl.setdefault(id(nl), {"nl": nl, "asks": 0, "need": 99 if self.rng.random() < self.never_decide else self.rng.choice([1, 1, 1, 2, 3]), "keys": set()})
+                    if self.current and self.current[0] == "stream":
+                        rec["keys"].add(self.current[1:])
         elif isinstance(cmd, commands.Log):
             pass
         else:
@@ -145,12 +165,22 @@ class QuicLoop:
                 cmd.connection.timestamp_start = 2.0
             self.feed(events.OpenConnectionCompleted(cmd, open_err))
         else:
+            self.current = self.hook_owner.pop(id(cmd), None)
+            if cmd.name == "next_layer":
+                # next_layer addon policy: decide at the n-th ask for this stream (n may be 'never': hook returns without a layer)
+                rec = self.nl[id(cmd.data)]
+                rec["asks"] += 1
+                if rec["asks"] >= rec["need"] and cmd.data.layer is None:
+                    nl = cmd.data
+                    nl.layer = UDPLayer(nl.context) if nl.context.client is self.client else TCPLayer(nl.context)
+                    self.decided_keys |= rec["keys"]
+                    self.trace.append(("in", "decided", sorted(rec["keys"])))
             self.feed(events.HookCompleted(cmd))
 
 
-def gen_script(r, allow_empty=True):
-    n = r.choice([0, 1, 1, 2, 3])
-    ending = r.choice(["fin_data", "fin_empty", "reset", "open", "open"])
+def gen_script(r, allow_empty=True, reset_bias=False):
+    n = r.choice([0, 0, 1, 1, 2] if reset_bias else [0, 1, 1, 2, 3])
+    ending = r.choice(["fin_data", "fin_empty", "reset", "reset", "reset", "open"] if reset_bias else ["fin_data", "fin_empty", "reset", "open", "open"])
     if n == 0 and ending == "fin_data":
         ending = "fin_empty"
     if n == 0 and ending == "open" and not allow_empty:
@@ -162,12 +192,16 @@ def gen_script(r, allow_empty=True):
         acts.append(["fin"])
     elif ending == "reset":
         acts.append(["reset"])
+    if r.random() < (0.3 if reset_bias else 0.1):
+        acts.insert(0, ["data_empty"])  # a STREAM frame without data and without FIN opens the stream
     return acts, ending
 
 
 def run_case(ctx, opts):
     r = ctx.rng
-    L = QuicLoop(opts, r)
+    force_raw = r.random() < 0.5
+    reset_bias = (not force_raw) and r.random() < 0.6
+    L = QuicLoop(opts, r, force_raw, never_decide=r.choice([0.0, 0.3, 0.6, 1.0]))
     # ---- plan
     n_streams = r.choice([1, 2, 2, 3, 4, 5, 6, 8, 10])
     streams = {}  # (side, sid) -> remaining actions  (initiator scripts)
@@ -178,13 +212,13 @@ def run_case(ctx, opts):
         sid = 4 * r.randint(0, 6) + (1 if init == "s" else 0) + (2 if uni else 0)
         if (init, sid) in streams:
             continue
-        acts, ending = gen_script(r, allow_empty=False)
+        acts, ending = gen_script(r, allow_empty=False, reset_bias=reset_bias)
         streams[(init, sid)] = acts
         classes.append(("uni" if uni else "bidi") + "-" + init)
     responder_scripts = {"c": [], "s": []}  # scripts the far peer on that side runs on bidi streams it learns about
     for side in "cs":
         for _ in range(6):
-            responder_scripts[side].append(gen_script(r)[0])
+            responder_scripts[side].append(gen_script(r, reset_bias=reset_bias)[0])
     resp_active = {}  # (side, sid) -> remaining actions
     seq = {}
     dgrams = [(r.choice("cs"), k) for k in range(r.choice([0, 0, 1, 3]))]
@@ -195,13 +229,19 @@ def run_case(ctx, opts):
     reset_code = [100]
     ended_in = set()  # (side, sid) whose sending direction is finished (no more input events allowed)
     kinds_used = set()
+    undecided_resets = [0]
     steps = 0
 
     def emit(side, sid, act):
         key = (side, sid)
+        L.current = ("stream", side, sid)
         if any(not isinstance(c, commands.OpenConnection) for c in L.pending):
             L.queued_behind_hook += 1
-        if act[0] == "data":
+        if act[0] == "data_empty":
+            L.trace.append(("in", "data", side, sid, b"", False))
+            kinds_used.add("data_empty")
+            L.feed(qe.QuicStreamDataReceived(L.conn(side), sid, b"", False))
+        elif act[0] == "data":
             k = seq.get(key, 0)
             seq[key] = k + 1
             payload = b"<%s%d.%d>" % (side.encode(), sid, k) + bytes(r.getrandbits(8) & 0x7F | 0x80 for _ in range(r.choice([0, 0, 5, 40])))
@@ -221,9 +261,12 @@ def run_case(ctx, opts):
             L.trace.append(("in", "reset", side, sid, reset_code[0]))
             ended_in.add(key)
             kinds_used.add("reset")
+            if not force_raw and key not in L.decided_keys:
+                undecided_resets[0] += 1
             L.feed(qe.QuicStreamReset(L.conn(side), sid, reset_code[0]))
 
     def feed_connclosed(side):
+        L.current = None
         closed_fed.add(side)
         code = 40 + len(closed_fed)
         L.conn(side).state = ConnectionState.CLOSED
@@ -275,6 +318,7 @@ def run_case(ctx, opts):
             side, k = dgrams.pop(0)
             payload = b"<D%s.%d>" % (side.encode(), k)
             L.trace.append(("in", "dgram", side, payload))
+            L.current = ("dgram",)
             L.feed(events.DataReceived(L.conn(side), payload))
         elif a[0] == "connclosed":
             close_order.pop(0)
@@ -291,7 +335,7 @@ def run_case(ctx, opts):
         L.complete(r.choice(L.pending))
 
     # ---- oracle
-    viol, stats = ref.check(L.trace)
+    viol, stats = ref.check(L.trace, nextlayer=not force_raw)
     witness = {
         "trace": [t if len(t) < 5 or not isinstance(t[4], bytes) else (*t[:4], t[4][:16], *t[5:]) for t in L.trace][:120],
         "hooks": L.hooks[:60],
@@ -306,6 +350,14 @@ def run_case(ctx, opts):
     ctx.count("allocations", stats["alloc"])
     ctx.count("dgram", sum(1 for t in L.trace if t[:2] == ("out", "dgram")))
     ctx.count("term_before_pair_known", stats["unattributed_term"])
+    if stats.get("undecided_abort"):
+        ctx.count("undecided_stream_aborts", stats["undecided_abort"])
+    if not force_raw:
+        ctx.count("nextlayer_cases")
+        ctx.count("next_layer_left_undecided", sum(1 for v in L.nl.values() if v["nl"].layer is None))
+        ctx.count("next_layer_decided_late", sum(1 for v in L.nl.values() if v["nl"].layer is not None and v["asks"] > 1))
+    if undecided_resets[0]:
+        ctx.count("reset_on_undecided_stream", undecided_resets[0])
     if L.queued_behind_hook:
         ctx.count("events_behind_pending_hook", L.queued_behind_hook)
     for kind, detail in viol[:3]:
@@ -320,6 +372,8 @@ def run_case(ctx, opts):
         ctx.seen("allocated_id_sequences", f"{side}:{ids[:8]}")
     pairs = stats["pairs"]
     sig = (
+        force_raw,
+        (any(v["nl"].layer is None for v in L.nl.values()), any(v["asks"] > 1 and v["nl"].layer is not None for v in L.nl.values()), undecided_resets[0] > 0),
         tuple(sorted(set(classes))),
         min(len(classes), 4),
         tuple(sorted(kinds_used)),
